@@ -16,7 +16,7 @@ TEXT = {
     "C10": "full proof on the model: Walk with the renderer's callbacks writes exactly the structural reading renderB of the tree, for every block and configuration (C10_appendBlock, walk_is_spec); tie: the structural renderer run on the implementation's own tree dump reproduces the implementation's bytes in all 30 configurations; determinism / tree untouched / joining observed on the implementation",
     "C11": "proof that the openers_bottom search bounds never change the result of process-emphasis (abstract lists of any length, and on the transcription of processEmphasis); full statement proved end to end on a vertical slice (C11_slice: lines of any length over letters, spaces, '*', '_' and a few ASCII punctuation bytes parse to exactly the forest the spec's delimiter-run procedure denotes); flanking flags and tokenisation tied by exhaustive correspondence up to a length bound; oracle = independent transcription of the spec procedure without the bound",
     "C12": "partial proof: closure clause for every input and matcher (C12_closure), Extract = first-wins fold in source order; label normalisation tied through the generated case-folding table and judged against an independent normaliser on generated label pairs",
-    "C13": "proof on the model: inline level for every input and matcher (ComposeShapes.parseBlocks_inline_shapes: every inline node has a valid span and the shape of its construct); block level for every input without NUL, and with NUL before filling / when cuts are aligned (parseFull_block_shapes_*); tie: (kind, span) correspondence plus the shape oracle",
+    "C13": "proof on the model for every input: every block node (NUL included, BlockShapesAll), every inline node of paragraphs and headings (ComposeShapes) and every verbatim entry has a valid span and the shape of its construct (C13Full.C13_partial); exempted and left to correspondence + oracle + the formal statement evaluated on the implementation's trees: the info string of a fence and the label/destination/title entries of a definition (C13_of_exempt reduces the full statement to them); tie: (kind, span) correspondence plus the shape oracle",
     "C14": "partial proof: padding clause on the concrete machine for every input (parseBlocks_blank_prefix); CR clause at the block layer for every input (parseBlocks_cr); recognizers insensitive to the line-ending style; final-newline and CRLF clauses: exact tree relations refuted unrestricted (one is finding D24), proved only bounded-exhaustively (thorough tier); decided by correspondence on the variants plus the oracle",
     "C15": "full proof on the model: every recognizer equals (or is sound and complete for) its declarative definition on every line, classifiers over all 256 bytes, e-mail grammar, URI alphabet / well-formed escapes / idempotence; classifier bodies and constants are regenerated from /repo's source on every run (TieClassify.v, TieBlocks.v, TieRender.v); recognizers tied by exhaustive correspondence through the verif hook",
     "C16": "partial proof: the re-parse property proved end to end on a slice (any number of one-line text paragraphs: SliceReparse.C16_reparse_paras); for general documents: re-parse oracle on the implementation (every root block re-parsed, also under one-byte reads, and compared node by node) plus model/implementation tree correspondence",
